@@ -8,6 +8,8 @@ Written from the docstrings / error messages / property text:
 Where pypika deviates the oracle reports it; the deviations that are known are listed in findings.d/C14.json.
 """
 
+from .crit import as_tree, walk
+
 JE, QE, AE, RE, SE, CE, FE, TE = ("JoinException", "QueryException", "AttributeError", "RollupException",
                                   "SetOperationException", "CaseException", "FunctionException", "TypeError")
 
@@ -128,17 +130,19 @@ class QSpec:
             item, h = c[1], c[2]
             if h[0] == "on" and h[1] is None:
                 return "join_on_none", JE
+            tree = as_tree(h)
             if h[0] == "on_field" and not h[1]:
                 return "join_on_field_none", JE
             if h[0] == "using" and not h[1]:
                 return "join_using_none", JE
-            if h[0] == "on":
+            if tree is not None:
                 src = self._sources(self._tagged(item))
-                for pair in h[1]:
-                    for tref, _ in [(self._see(item, tr), n_) for tr, n_ in pair]:
-                        # a reference to a WITH query is judged when the statement is rendered (with_() may follow)
-                        if tref is not None and tref[0] != "alq" and T(tref) not in src:
-                            return "join_foreign_table", JE
+                # every field of the criterion, whatever operand of whatever term class it sits in
+                for tr, _, _ in walk(tree):
+                    tref = self._see(item, tr)
+                    # a reference to a WITH query is judged when the statement is rendered (with_() may follow)
+                    if tref is not None and tref[0] != "alq" and T(tref) not in src:
+                        return "join_foreign_table", JE
         if k == "on_dup_update" and self.ignore:
             return "mysql_update_after_ignore", QE
         if k == "on_dup_ignore" and self.dups > 0:
@@ -268,8 +272,8 @@ class QSpec:
         elif k == "join":
             raw, h = c[1], c[2]
             item = list(self._tagged(raw))
-            if h[0] == "on":
-                h = ["on", [[[self._see(raw, tr), n_] for tr, n_ in pair] for pair in h[1]]]
+            tree = as_tree(h)
+            fields = None if tree is None else [[self._see(raw, tr), n_, hid] for tr, n_, hid in walk(tree)]
             if raw[0] == "sub" and raw[1] is None:
                 self.subcount += 1
             base = [T(t) for t in self.frm] + [T(t) for t in self.withs] + ([T(self.update)] if self.update is not None else [])
@@ -282,15 +286,18 @@ class QSpec:
                 while "%s%d" % (item[1], n) in names:
                     n += 1
                 item[3] = "%s%d" % (item[1], n)
-            if h[0] == "on":
-                refs = [tr for pair in h[1] for tr, _ in pair if tr is not None]
+            if fields is not None:
+                refs = [(tr, hid) for tr, _, hid in fields if tr is not None]
             elif h[0] == "on_field":
-                refs = [self.frm[0], item]
+                refs = [(self.frm[0], False), (item, False)]
             else:
                 refs = None
-            crit = None if refs is None else [t for t in refs if t[0] == "tab"]
-            alqs = [] if refs is None else [t for t in refs if t[0] == "alq"]
-            self.joins.append((item, crit, alqs))
+            # criterion tables as the RETURNING guard reads them (criterion.tables_); the WITH references: all of them,
+            # and those inside operands nodes_ does not visit (only to name the known deviation)
+            crit = None if refs is None else [t for t, hid in refs if t[0] == "tab" and not hid]
+            alqs = [] if refs is None else [t for t, _ in refs if t[0] == "alq"]
+            hidden_alqs = [] if refs is None else [t for t, hid in refs if t[0] == "alq" and hid]
+            self.joins.append((item, crit, alqs, hidden_alqs))
         elif k == "on_dup_update":
             self.dups += 1
         elif k == "on_dup_ignore":
@@ -582,13 +589,24 @@ def detail(case, spec, call, verdict, pred, actual):
             return "mutable"
         return "immutable"
     if k == "join" and verdict == "spurious":
-        refs = [tr for pair in (call[2][1] or []) for tr, _ in pair] if call[2][0] == "on" else []
+        tree = as_tree(call[2])
+        refs = [tr for tr, _, _ in walk(tree)] if tree is not None else []
         if spec.update is not None and any(r is None for r in refs):
             return "tableless-field-on-update"
         return "other"
-    if k == "join" and verdict == "missed" and call[2][0] == "on" and call[2][1]:
-        flds = [[spec._see(call[1], f[0]), f[1]] for pair in call[2][1] for f in pair]
+    if k == "render" and verdict == "missed" and pred and pred[0] == "join_unknown_with_query":
+        known = [T(t) for t in spec.withs] + [T(t) for t in spec.frm] + [T(j[0]) for j in spec.joins]
+        unknown = [a for j in spec.joins for a in j[2] if T(a) not in known]
+        hidden = [a for j in spec.joins for a in j[3] if T(a) not in known]
+        return "operand-invisible-to-nodes" if unknown and len(unknown) == len(hidden) else "other"
+    if k == "join" and verdict == "missed" and as_tree(call[2]) is not None:
+        walked = [[spec._see(call[1], tr), n_, hid] for tr, n_, hid in walk(as_tree(call[2]))]
+        flds = [[tr, n_] for tr, n_, _ in walked]
         src = spec._sources(spec._tagged(call[1]))
+        foreign = [(tr, hid) for tr, _, hid in walked if tr is not None and tr[0] != "alq" and T(tr) not in src]
+        if foreign and all(hid for _, hid in foreign):
+            # every foreign table is named inside an operand nodes_ does not visit (-x, AT TIME ZONE, OVER(), FILTER())
+            return "operand-invisible-to-nodes"
         for tr, _ in flds:
             # a sub-query that is no source but has the alias and the FROM table of one that is
             if tr is not None and tr[0] == "sub" and T(tr) not in src and any(
